@@ -225,16 +225,75 @@ func zzvRun() {
 	m := &zzvModel{n: n}
 	p := zzvNewPinner(d, ds.NewMapDatastore())
 	faultAll := verifrt.Param("FAULTALL", 0) == 1
+	setup := verifrt.Param("SETUP", 0) == 1
 	for i := 0; i < K; i++ {
-		zzvStep(p, d, m, faultAll || i == K-1)
+		last := i == K-1
+		zzvStep(p, d, m, zzvStepOpt{faults: faultAll || last, setup: setup && !last, succeed: !last && !faultAll, assert: true})
 	}
 	zzvObserveModel(m)
 	zzvBattery(p, d, m, verifrt.Param("Q", 7))
 	verifrt.Reach("end")
 }
 
-// HarnessC22Ops: K symbolic operations (faults in the last one), all queries against the pin model.
+// HarnessC22Ops1: one symbolic operation (with faults) on the empty pinner, all queries against the pin model.
+func HarnessC22Ops1() { zzvRun() }
+
+// HarnessC22Ops: K symbolic operations, faults in the last one (FAULTALL=1: in every one); operations before the
+// last one succeed (a failed one is covered as the last operation of the shorter history) and, with SETUP=1, are
+// Pin recursive/direct of node 0 or 1 with a one-byte name. All queries against the pin model at the end.
 func HarnessC22Ops() { zzvRun() }
+
+// HarnessC22Update: node 0 pinned recursively with a symbolic name; node TO (1 or 2) not pinned / pinned directly /
+// pinned recursively; then Update(0 -> TO or 0 -> 0, unpin symbolic) with symbolic fetch faults; all queries.
+func HarnessC22Update() {
+	n := verifrt.Param("N", 3)
+	d := zzvNewDag(n, verifrt.Param("MISSING", 0) == 1)
+	m := &zzvModel{n: n}
+	p := zzvNewPinner(d, ds.NewMapDatastore())
+	ctx := context.Background()
+	name0 := zzvName()
+	verifrt.Assert("C22.op-unexpected-error", p.PinWithMode(ctx, d.cids[0], ipfspinner.Recursive, name0) == nil)
+	m.set(0, zzvRec, name0)
+	to := verifrt.NondetRange("to", 0, 2)
+	if to != 0 {
+		name1 := verifrt.NondetString("name", 1)
+		switch verifrt.NondetRange("tostate", 0, 2) {
+		case 1:
+			verifrt.Assert("C22.op-unexpected-error", p.PinWithMode(ctx, d.cids[to], ipfspinner.Direct, name1) == nil)
+			m.set(to, zzvDir, name1)
+		case 2:
+			verifrt.Assert("C22.op-unexpected-error", p.PinWithMode(ctx, d.cids[to], ipfspinner.Recursive, name1) == nil)
+			m.set(to, zzvRec, name1)
+		}
+	}
+	cctx, cancel := context.WithCancel(ctx)
+	defer cancel()
+	d.cancel, d.fired = cancel, false
+	d.fault = verifrt.NondetU8("fault")
+	verifrt.Assume(d.fault <= 2)
+	d.fk = -1
+	unpin := verifrt.NondetBool("updunpin")
+	mustFail := to != 0 && m.mode[to] == zzvRec
+	err := p.Update(cctx, d.cids[0], d.cids[to], unpin)
+	d.fault, d.fk = 0, 0
+	verifrt.Observe("err", err != nil)
+	if mustFail {
+		verifrt.Assert("C22.op-must-fail", err != nil)
+	} else if err != nil {
+		verifrt.Assert("C22.op-unexpected-error", d.fired)
+	}
+	if err == nil && to != 0 {
+		wasDirect := m.mode[to] == zzvDir
+		m.set(to, zzvRec, name0)
+		m.updOntoDirect[to] = wasDirect
+		if unpin {
+			m.clear(0)
+		}
+	}
+	zzvObserveModel(m)
+	zzvBattery(p, d, m, 7)
+	verifrt.Reach("end")
+}
 
 // HarnessC22Repin: the history the design singles out: a CID pinned (any mode, name), then pinned again
 // recursively with a fetch that fails (missing block or cancelled context): the call fails, so every query must
